@@ -46,6 +46,10 @@ def items(tier, seed):
     return out
 
 
+class WrongFamily(Exception):
+    """a dump field renders an address in the other family's notation"""
+
+
 class Recorder:
     def __init__(self):
         self.writes = []
@@ -74,6 +78,8 @@ def parse_line(w, family, W):
             return seg[0].e
         if all(isinstance(c, int) for c in seg):
             return z3.BitVecVal(int(ipaddress.ip_address("".join(map(chr, seg)))), W)
+        if len(seg) == 1 and isinstance(seg[0], Atom) and seg[0].kind in ("ipv4", "ipv6"):
+            raise WrongFamily()
         raise core.EngineError("unexpected dump field %r" % (seg,))
     return val(cs[:i]), val(cs[i + 1:-1])
 
@@ -101,7 +107,13 @@ def dump(item, res):
             X.deanonymize(ra)
         rec = Recorder()
         X.dump_to_file(rec)
-        pairs = [parse_line(w, family, W) for w in rec.writes]
+        try:
+            pairs = [parse_line(w, family, W) for w in rec.writes]
+        except WrongFamily:
+            m = ex_.model(z3.BoolVal(True))
+            if m is not None:
+                found.append((m, b))
+            return ("cex", b, [])
         bad = []
         for (x, y) in reqs:   # every replaced address is listed with the replacement that was used
             bad.append(z3.Not(z3.Or(*[z3.And(px == x, py == y) for px, py in pairs])) if pairs else z3.BoolVal(True))
